@@ -120,6 +120,33 @@ def run(prog, chk):
             else:
                 chk.fail("R13.1", ne.name, "uncovered:%r" % ch,
                          "character %r (%s) neither selects quoting in needs_escaping nor ANSI-C quoting: a value containing it is printed bare and re-reads differently" % (ch, why))
+        # options that switch a covering mechanism off: QuoteOptions.avoid_ansi_c_quoting_newline removes the newline from the ANSI-C
+        # trigger, so wherever that option can be true the newline must select quoting through needs_escaping itself
+        nopt = 0
+        for ob in prog.all_bodies(SHIPPED):
+            od = None
+            for bl in ob.blocks:
+                for st in bl.stmts:
+                    if st.kind == 'a' and st.rv.kind == 'agg' and (st.rv.adt or "").endswith("escape::QuoteOptions"):
+                        names = st.rv.raw.get("fn") or []
+                        if "avoid_ansi_c_quoting_newline" not in names:
+                            continue
+                        nopt += 1
+                        od = od or defs_of(ob)
+                        op = st.rv.ops[names.index("avoid_ansi_c_quoting_newline")]
+                        cv = const_value(ob, od, op)
+                        from_default = any(o.kind == 'call' and (o.node.best_callee() or o.node.callee or "").endswith("Default>::default") or
+                                           (o.kind == 'call' and (o.node.callee or "").endswith("Default::default")) for o in origins(ob, od, op))
+                        if cv == 0 or (cv is None and from_default):
+                            continue
+                        if '\n' in got:
+                            chk.ok("R13.1", "newline-covered-without-ansi-c@" + owner(ob.name), "needs_escaping selects quoting for a newline", function=owner(ob.name))
+                        else:
+                            chk.fail("R13.1", owner(ob.name), "newline-uncovered-under-avoid-ansi-c",
+                                     "%s builds QuoteOptions with avoid_ansi_c_quoting_newline possibly true (line %s): quote() then skips ANSI-C quoting for a newline, and "
+                                     "needs_escaping has no newline entry, so a word whose only special character is a newline is printed bare — `set -x; : $'a\\nb'` "
+                                     "traces as two lines that re-read as two commands" % (owner(ob.name), st.line if hasattr(st, "line") else "?"))
+        chk.note("QuoteOptions_constructions", nopt)
         # word-initial specials
         qb = prog.body(ESC + "quote")
         be = prog.body(ESC + "backslash_escape")
